@@ -7,7 +7,7 @@ from optcommon import skey
 
 from predicate import generate_true          # the PUBLIC entry point (what users import)
 from predicate import predicate as PP
-from predicate.standard_predicates import (ge_p, is_dict_of_p, is_int_p, is_str_p, is_tuple_of_p, is_list_of_p, regex_p, eq_p, le_p, is_bool_p)
+from predicate.standard_predicates import (ge_p, is_dict_of_p, is_int_p, is_str_p, is_tuple_of_p, is_list_of_p, regex_p, eq_p, le_p, is_bool_p, is_none_p)
 from predicate.set_predicates import is_real_subset_p, is_subset_p
 
 MODE = "true"
@@ -155,6 +155,55 @@ def search(payload):
             n += len(vals)
             if bad_i is not None:
                 fails.append({"p": repr(p), "p_structure": skey(p), "position": bad_i, "value": repr(vals[bad_i])[:200], "p(value)": repr(call(p, vals[bad_i]))})
+                break
+    # collections read a few hundred values deep (elements that are == but of another type: 0/False, 1/True)
+    from predicate.standard_predicates import any_p as _any0, all_p as _all0, is_set_of_p as _setof, is_float_p as _isfloat
+    for p in (_any0(is_bool_p), _any0(eq_p(0)), _any0(is_int_p), _any0(_isfloat), _any0(is_bool_p | is_str_p), _all0(_any0(is_bool_p)), _setof(is_bool_p), _all0(is_bool_p)):
+        for seed in range(4):
+            if timeouts >= 3:
+                break
+            random.seed(int(payload["seed"]) * 13 + seed + 8)
+            try:
+                vals, err = g.take(GENF(p), 400, seconds=30.0)
+            except (ValueError, TypeError):
+                continue
+            if err == "timeout":
+                timeouts += 1
+            bad_i = next((i for i, v in enumerate(vals) if call(p, v) != ("ok", True)), None)
+            n += len(vals)
+            if bad_i is not None:
+                fails.append({"p": repr(p), "p_structure": skey(p), "position": bad_i, "value": repr(vals[bad_i])[:200], "p(value)": repr(call(p, vals[bad_i])), "seed": seed})
+                break
+    # tuple 'of' / dict 'of' with SEVERAL components: components that print alike, literal keys, finite and repeated component streams.
+    # dict_of entries whose keys can be mistaken for one another are known finding 12 (DictOf `Compat` in the Coq model); the others must hold
+    from predicate.standard_predicates import is_dict_of_p as _dof, is_tuple_of_p as _tof, ne_p as _ne
+    from predicate.set_predicates import in_p as _in
+    multi = [(t, None) for t in g.tuple_grid()]
+    multi += [(_tof(eq_p(1), eq_p("1")), None), (_tof(ge_p(3), ge_p("m"), ge_p(3)), None), (_tof(_dof(("a", is_int_p)), _dof(("b", is_str_p))), None),
+              (_tof(is_int_p, is_int_p, is_str_p, is_int_p), None), (_tof(_in(1, 2), _in("1", "2")), None), (_tof(_tof(is_int_p, is_str_p), _tof(is_str_p, is_int_p)), None)]
+    compat = [_dof(("name", is_str_p), ("age", is_int_p)), _dof(("a", is_int_p), ("b", is_str_p), ("c", is_bool_p)), _dof((eq_p(1), ge_p(3)), (eq_p(2), is_none_p)),
+              _dof(("k", _tof(is_int_p, is_str_p)), ("l", is_list_of_p(is_int_p))), _dof(("a", _dof(("x", is_int_p), ("y", is_str_p))), ("b", is_int_p)),
+              _dof((eq_p(1), eq_p("one")), (eq_p("1"), eq_p(1))), _dof((_in(1, 2), is_int_p), (_in("p", "q"), is_str_p))]
+    multi += [(d, None) for d in compat]
+    overlapping = [_dof(("a", is_int_p), (is_str_p, is_str_p)), _dof((eq_p(1), eq_p(5)), (ge_p(0), ge_p(7))), _dof((is_str_p, is_int_p), ("age", is_str_p))]
+    multi += [(d, 12) for d in overlapping]
+    for p, finding in multi:
+        for seed in range(2):
+            random.seed(int(payload["seed"]) * 17 + seed + 3)
+            try:
+                vals, err = g.take(GENF(p), 30, seconds=20.0)
+            except (ValueError, TypeError):
+                continue
+            n += len(vals)
+            bad_i = next((i for i, v in enumerate(vals) if call(p, v) != ("ok", True)), None)
+            if bad_i is not None:
+                if finding is not None:
+                    known_hits.append({"id": finding, "p": repr(p)})
+                else:
+                    label = (type(p).__name__ + "(" + ", ".join(repr(c) for c in getattr(p, "predicates", getattr(p, "key_value_predicates", []))) + ")")
+                    comps = getattr(p, "predicates", None) or [c for kv in getattr(p, "key_value_predicates", []) for c in kv]
+                    fails.append({"p": label, "components_structure": [str(skey(c)) for c in comps], "position": bad_i, "value": repr(vals[bad_i])[:300],
+                                  "p(value)": repr(call(p, vals[bad_i])), "seed": seed})
                 break
     # judged by a reference written from the CONSTRUCTOR CALL, not by the object the library built (a factory that re-interprets its
     # arguments, or an object mutated on the way, would otherwise vouch for its own values)
